@@ -244,7 +244,7 @@ def shm_slice(res, rng, tier):
     t0 = time.time()
     ops = []
     n = 0
-    ncfg = 4 if tier == "quick" else 14
+    ncfg = 8 if tier == "quick" else 30
     for _ in range(ncfg):
         kind = rng.choice(["linear", "log16", "log8", "hh", "hll"])
         w, d = rng.choice([1, 3, 5, 7, 11]), rng.choice([1, 3, 5])
@@ -255,12 +255,14 @@ def shm_slice(res, rng, tier):
             args = ("cms", {"cms_type": "linear", "width": w, "depth": d})
             ops.append([f"shm.cms 4 {w} {d}", None, "layout"])
         elif kind == "log16":
-            mk = lambda shm: s.CountMinLog16(w, d, shared_memory=shm)
-            args = ("cms", {"cms_type": "log16", "width": w, "depth": d})
+            mc, nrv = rng.choice([(2**32 - 1, 1023), (10**6, 1023), (2**40, 0)])
+            mk = lambda shm: s.CountMinLog16(w, d, mc, nrv, shared_memory=shm)
+            args = None
             ops.append([f"shm.cms 2 {w} {d}", None, "layout"])
         elif kind == "log8":
-            mk = lambda shm: s.CountMinLog8(w, d, shared_memory=shm)
-            args = ("cms", {"cms_type": "log8", "width": w, "depth": d})
+            mc, nrv = rng.choice([(2**32 - 1, 15), (1000, 15), (10**6, 3)])
+            mk = lambda shm: s.CountMinLog8(w, d, mc, nrv, shared_memory=shm)
+            args = None
             ops.append([f"shm.cms 1 {w} {d}", None, "layout"])
         elif kind == "hh":
             mk = lambda shm: s.HeavyHitters(w, d, mkl, shared_memory=shm)
@@ -274,7 +276,13 @@ def shm_slice(res, rng, tier):
         plain = mk(False)
         owner = mk(True)
         name = owner.shm.name.lstrip("/")
+        if args is None:
+            args = ("cms", owner.args)  # the documented way: rebuild a view from the owner's `args`
         views = [s.attach_shared_memory(args[0], args[1], owner.shm.name) for _ in range(rng.choice([1, 2]))]
+        for vv in views:
+            if _public(vv) != _public(owner):
+                res.oracle_failures.append({"pid": "C16", "what": f"C16 {kind}: a view attached through attach_shared_memory(owner.args) has other parameters than the owner: "
+                                            f"{ {k: (_public(owner).get(k), _public(vv).get(k)) for k in _public(owner) if _public(owner).get(k) != _public(vv).get(k)} }", "kind": kind})
         # real layout: offsets of every array inside the block, through the owner and through a view
         def layout(o, blk):
             base = np().frombuffer(blk.buf, np().uint8).__array_interface__["data"][0]
@@ -309,7 +317,12 @@ def shm_slice(res, rng, tier):
                 if int(plain.rand_ptr) != ptr:
                     res.oracle_failures.append({"pid": "C16", "what": f"C16 {kind} {w}x{d}: draw consumption differs between in-memory and shared sketch"})
             st = _state(plain)
+            if kind != "hll":
+                qs = [plain[kk[:mkl] if kind == "hh" else kk] for kk in keys]
             for idx, o in enumerate([owner] + views):
+                if kind != "hll" and [o[kk[:mkl] if kind == "hh" else kk] for kk in keys] != qs:
+                    res.oracle_failures.append({"pid": "C16", "what": f"C16 {kind} shape {w}x{d}: queries through {'the owner' if idx == 0 else 'view %d' % idx} differ from the in-memory sketch", "kind": kind})
+                    break
                 if _state(o) != st:
                     res.oracle_failures.append({"pid": "C16", "what": f"C16 {kind} shape {w}x{d} (mkl {mkl}, p {p}): after step {step} the state seen through "
                                                 f"{'the owner' if idx == 0 else 'view %d' % idx} differs from the in-memory sketch", "kind": kind, "w": w, "d": d})
